@@ -1,7 +1,7 @@
-\* C02 exhaustive, quick: permissive grant rule (granted iff no other handle on the area / refused iff several windows)
+\* C02 exhaustive, quick: weakest grant rule (granted only if no other handle is on the area and no other window covers the octet, refused only if the area has several windows); one block of 3 octets, 3 handles, 3 calls deep
 SPECIFICATION MCSpec
 CONSTANTS
-  Handles = {0, 1, 2, 3}
+  Handles = {0, 1, 2}
   Fill = 14
   Strict = FALSE
   KeepHist = FALSE
@@ -10,14 +10,17 @@ CONSTANTS
   MaxLen = 5
   MaxWins = 5
   Depth = 3
-  PatSet = "c02"
+  PatSet = "q"
   InitSet = "one"
   ObsLast = FALSE
   Rand = FALSE
   Letters = {0, 1}
+  LastOps = {}
+  LastSz = {}
+  Dom = "all"
   Ops = {"dup", "splice", "split", "merge", "append", "insert", "delete", "truncate", "resize", "prepend", "poke", "free"}
-INVARIANT TypeOK ByteString FreshSingle WriteOnlySingle
-PROPERTY Isolation StructuralOpsDontWrite SharedNeverWritten ErrLeavesUnchanged
+INVARIANT TypeOK ByteString FreshSingle
+PROPERTY Isolation WriteOnlySingle StructuralOpsDontWrite SharedNeverWritten ErrLeavesUnchanged
 CONSTRAINT Bounded
 VIEW view
 CHECK_DEADLOCK FALSE
